@@ -869,6 +869,22 @@ func FetchLoopReachesEndNode(c *core.Ctx, rule string) {
 // copied struct's field aliases the supervisor's own list, which the appends of
 // a failed attempt then overwrite.
 
+func isParamOf(fo *types.Func, v *types.Var) bool {
+	if fo == nil {
+		return false
+	}
+	sig := fo.Type().(*types.Signature)
+	if sig.Recv() == v {
+		return true
+	}
+	for i := 0; i < sig.Params().Len(); i++ {
+		if sig.Params().At(i) == v {
+			return true
+		}
+	}
+	return false
+}
+
 func FreshSlaves(c *core.Ctx, rule string) {
 	pk := c.Pkg("redis-shake/dbSync/slotsupervisor")
 	if pk == nil {
@@ -1043,6 +1059,29 @@ func FreshSlaves(c *core.Ctx, rule string) {
 											okD, w = true, nil
 										}
 									}
+								}
+							}
+						}
+						if !okD {
+							// the node is handed in by the caller (receiver or parameter, possibly a
+							// field of it): whether its list was made for it is decided where the
+							// object is built, not here
+							root := x
+							for {
+								switch y := ast.Unparen(root).(type) {
+								case *ast.SelectorExpr:
+									root = y.X
+									continue
+								case *ast.StarExpr:
+									root = y.X
+									continue
+								}
+								break
+							}
+							if id, isId := ast.Unparen(root).(*ast.Ident); isId {
+								if v, isVar := core.ObjOf(info, id).(*types.Var); isVar && isParamOf(fo, v) {
+									c.Undecidedf(rule, fd.Name.Name+"/fresh-slaves", call.Pos(), "the replica list of a node that %s receives from its caller grows here; whether that list was made fresh for the node is not visible in this function", fd.Name.Name)
+									return true
 								}
 							}
 						}
